@@ -752,7 +752,9 @@ int write_msa_fasta(struct msa* msa,char* outfile)
                 }
         }
         if(outfile){
-                fclose(f_ptr);
+                if(fclose(f_ptr) != 0){
+                        ERROR_MSG("Could not write to file: %s", outfile);
+                }
         }
 
         return OK;
@@ -899,11 +901,13 @@ int write_msa_clu(struct msa* msa,char* outfile)
                 //fprintf(stdout,"%d %d %s\n",ol->seq_id,ol->block,ol->line);
 
         }
-        if(outfile){
-                fclose(f_ptr);
-        }
         free_line_buffer(lb);
         /* MFREE(linear_seq); */
+        if(outfile){
+                if(fclose(f_ptr) != 0){
+                        ERROR_MSG("Could not write to file: %s", outfile);
+                }
+        }
         return OK;
 ERROR:
         return FAIL;
@@ -1175,16 +1179,15 @@ int write_msa_msf(struct msa* msa,char* outfile)
                 //fprintf(stdout,"%d %d %s\n",ol->seq_id,ol->block,ol->line);
                 fprintf(f_ptr, "%s\n", ol->line);
         }
-        if(outfile){
-                fclose(f_ptr);
-        }
         free_line_buffer(lb);
         /* MFREE(linear_seq); */
+        if(outfile){
+                if(fclose(f_ptr) != 0){
+                        ERROR_MSG("Could not write to file: %s", outfile);
+                }
+        }
         return OK;
 ERROR:
-        if(linear_seq){
-                MFREE(linear_seq);
-        }
         if(basename){
                 MFREE(basename);
         }
